@@ -88,8 +88,12 @@ impl BDecoder {
         first_num: &u8,
     ) -> Result<(Vec<u8>, Vec<u8>), Error> {
         let mut len_bytes = vec![*first_num];
+        let mut colon_found = false;
         let mut rest_len_bytes: Vec<_> = it
-            .take_while(|(_, &b)| b != b':')
+            .take_while(|(_, &b)| {
+                colon_found = b == b':';
+                !colon_found
+            })
             .map(|(_, &b)| b)
             .collect();
         len_bytes.append(&mut rest_len_bytes);
@@ -108,6 +112,11 @@ impl BDecoder {
             Ok(v) => v,
             Err(_) => return Err(Error::DecodeUnableConvert("parse_byte_str", "int", pos)),
         };
+
+        // Input ended inside the length prefix (no ":" delimiter)
+        if !colon_found {
+            return Err(Error::DecodeNotEnoughChars("parse_byte_str", pos));
+        }
 
         let str_value: Vec<_> = it.take(len).map(|(_, &b)| b).collect();
         if str_value.len() != len {
